@@ -89,7 +89,8 @@ def one_above_numeric(inner, nleaves, bleaves, consts, muls, divs):
     out.append(['abs', inner])
     for c in muls:
         out.append(['*', num(c), inner])
-    out.append(['*', inner, num(muls[-1])])
+        if c < 0 or c == muls[0]:
+            out.append(['*', inner, num(c)])   # the constant on the right takes a different branch of the linearizer
     for c in divs:
         out.append(['/', inner, num(c)])
     for s in sib:
@@ -486,5 +487,11 @@ def l_seeded(seed, n, cont_only=False, maxn=3, maxm=3, coefs=None, rhss=None, na
         d = r.choice(dirs)
         if d == 'solve':
             obj = [0] * nv   # a satisfy model has no objective function
-        out.append(lm_spec(ks, rows, obj, d, off, names))
+        spec = lm_spec(ks, rows, obj, d, off, names)
+        if nv > 1 and pr.random() < 0.35:
+            # domain map ordered differently from the columns (what the linearizer produces for `define y ...; x ...`)
+            order = ['x%d' % i for i in range(nv)]
+            pr.shuffle(order)
+            spec['domain_order'] = order
+        out.append(spec)
     return out
